@@ -80,6 +80,27 @@ FN = (
     "get_repr_proc",
 )
 
+# fixed hazard shapes, run by shard 0 of every tier (both sweep modes)
+FIXED = [
+    # a field first mentioned after unions already happened
+    [["decl", 0], ["derive", 0, 1, []], ["derive", 1, 2, ["f0"]]],
+    [["decl", 0], ["decl", 1], ["assert", 0, 1, ["f0"]], ["derive", 1, 2, ["f1"]]],
+    [["decl", 0], ["decl", 1], ["derive", 0, 2, []], ["assert", 1, 2, ["f0", "f1"]]],
+    [["decl", 0], ["derive", 0, 1, ["f0"]], ["derive", 1, 2, ["f0", "f1"]], ["derive", 2, 3, ["f2"]]],
+    # different origin
+    [["decl", 0], ["decl", 1], ["check", 1, 0, []], ["strict", 0, 1]],
+    [["decl", 0], ["derive", 0, 1, ["f0"]], ["decl", 2], ["derive", 2, 3, ["f0"]]],
+    # two parallel steps that disturb different fields: equivalent modulo nothing, per field
+    [["decl", 0], ["derive", 0, 1, ["f0"]], ["assert", 0, 1, ["f1"]], ["check", 0, 1, []]],
+    # unions of non-roots, in both argument orders
+    [["decl", 0], ["derive", 0, 1, []], ["decl", 2], ["assert", 2, 1, []]],
+    [["decl", 0], ["decl", 1], ["assert", 1, 0, []], ["decl", 2], ["assert", 2, 0, []]],
+    [["decl", 0], ["derive", 0, 1, ["f0"]], ["assert", 1, 0, []], ["decl", 2], ["assert", 2, 0, []]],
+    # re-declaration, self steps, a dropped intermediate proc
+    [["decl", 0], ["derive", 0, 1, ["f0"]], ["decl", 1], ["derive", 1, 1, ["f1"]], ["assert", 0, 0, []]],
+    [["decl", 0], ["derive", 0, 1, []], ["derive", 1, 2, ["f0"]], ["drop", 1], ["strict", 0, 2], ["repr", 2]],
+]
+
 # exhaustive sub-space (thorough tier)
 EXH_PROCS = 4
 EXH_FIELDS = ("f0", "f1")
@@ -262,6 +283,7 @@ class Monitor:
                 self._mismatch("bad_return", q, a, b, [], real, S)
             else:
                 self.counts["q_false"] += 1
+                self.counts["q_different_origin_denied"] += 1
         elif not is_eqv:
             self._mismatch("imprecise", q, a, b, [], real, S)
         elif not S <= keys:
@@ -1093,14 +1115,14 @@ def plan(tier, seed):
     return {
         "nshards": 16,
         "params": {
-            "soft_s": 40,
+            "soft_s": 150,
             "n_iso": 320,
             "n_shared": 120,
             "n_api": 24,
             "exhaustive": False,
             "field_cap": 24,
         },
-        "hard_timeout_s": 300,
+        "hard_timeout_s": 900,
     }
 
 
@@ -1223,6 +1245,18 @@ def shard(ctx, stop_on=None):
             ctx.stat("exh_histories")
         ctx.stat("exh_enumerated_by_shard", idx)
 
+    # ---- fixed hazard shapes ------------------------------------------------
+    if ctx.shard == 0:
+        for ev in FIXED:
+            for mode in ("each", "end"):
+                mm, mon, synth = run_fresh(ev, mode, naive_every=1)
+                account(ev, "fixed", mode, mon, synth)
+                ctx.stat("model_selfcheck", mon.counts.pop("model_selfcheck", 0))
+                ctx.stat("model_selfcheck_failed", mon.counts.pop("model_selfcheck_failed", 0))
+                flush_mon(mon, "iso_")
+                if mm:
+                    report(mm, "synthetic", events=ev, sweep=mode)
+
     # ---- (1) synthetic, isolated fresh instance per history -----------------
     n_iso = int(P.get("n_iso", 0))
     for h in range(n_iso):
@@ -1237,9 +1271,19 @@ def shard(ctx, stop_on=None):
         account(ev, "isolated", sweep, mon, synth)
         ctx.stat("model_selfcheck", mon.counts.pop("model_selfcheck", 0))
         ctx.stat("model_selfcheck_failed", mon.counts.pop("model_selfcheck_failed", 0))
+        mon_nq = mon.nq
         flush_mon(mon, "iso_")
-        if h < 2:
-            ctx.sample({"workload": "synthetic/isolated", "sweep": sweep, "events": canon(ev), "queries_compared_so_far": synth.nsweepq})
+        if h < 1:
+            ctx.sample(
+                {
+                    "workload": "synthetic/isolated",
+                    "sweep": sweep,
+                    "events": canon(ev),
+                    "compared": "%d query answers of a fresh proc_eqv instance vs the model, 0 mismatches" % (mon_nq,)
+                    if not mm
+                    else "mismatch",
+                }
+            )
         if mm:
             report(mm, "synthetic", events=ev, sweep=sweep)
 
@@ -1326,9 +1370,9 @@ def finish(agg, tier):
     for name, low in (
         ("wrap_exo_derive_proc", 100),
         ("wrap_exo_decl_new_proc", 100),
-        ("wrap_exo_assert_eqv_proc", 5),
+        ("wrap_exo_assert_eqv_proc", 10),
         ("wrap_exo_check_eqv_proc", 100),
-        ("wrap_exo_get_strictest_eqv_proc", 5),
+        ("wrap_exo_get_strictest_eqv_proc", 20),
     ):
         if s.get(name, 0) < low:
             inc.append("wrapper %s evaluated by exo only %d times (< %d)" % (name, s.get(name, 0), low))
@@ -1344,6 +1388,7 @@ def finish(agg, tier):
             "shared": s.get("histories_shared", 0),
             "api_scripts": s.get("histories_api", 0),
             "exhaustive": s.get("exh_histories", 0),
+            "fixed_hazard_shapes": s.get("histories_fixed", 0),
         },
         "events": s.get("events", 0),
         "queries_compared": s.get("queries_compared", 0),
